@@ -24,6 +24,7 @@ VT(x) ==
     [] x.t = "bool" -> Bool(x.b)
     [] x.t = "num" -> Num(x.c)
     [] x.t = "str" -> Str(x.s)
+    [] x.t = "tower" -> Tower(x.n, x.sh, VT(x.x))
 
 TInit == l = 1 /\ TLCSet(1, 0)
 
